@@ -242,6 +242,13 @@ P_C06_outcome(tb, present, b0, out) ==
     [] out = "borrow"  -> ConflictSet(tb, present, b0) # {}
     [] OTHER           -> FALSE
 
+\* C06: the borrow a declared READ takes is a SHARED one - also while other readers are around:
+\* any number of threads fetching a read-only shape concurrently from a world in which everything
+\* it needs exists (and nobody holds an exclusive borrow) all succeed
+ReadOnly(tb) == Writes(tb, 1) = <<>>
+P_C06_shared(tb, present, failures) ==
+  (ReadOnly(tb) /\ MissingSet(tb, present) = {}) => failures = 0
+
 \* C06, setup half: setup of a composite = composition of its members' setups, in order
 \* (observed: the sequence of resources for which Default::default() was invoked
 \* and of custom-handler calls - every member's handler is called whatever already exists)
